@@ -284,7 +284,9 @@ class DataFrameToTensorFrameConverter:
 
                 tf.feat_dict.pop(stype)
                 tf.col_names_dict.pop(stype)
-        return tf
+        # Re-create the tensor frame so that its column lookup table reflects
+        # the merged `col_names_dict`.
+        return TensorFrame(tf.feat_dict, tf.col_names_dict, tf.y)
 
     def __call__(
         self,
